@@ -283,3 +283,25 @@ func denseBatch(signal string, n, seq int) *batchIn {
 	}
 	return b
 }
+
+// fatBatch: n log records with unique bodies of about size bytes each (free
+// text). A few of these per stream make a dictionary that is small in entries
+// but large in bytes.
+func fatBatch(n, size, seq int) *batchIn {
+	b := &batchIn{signal: "logs", kind: "fat", items: n}
+	b.ld = plog.NewLogs()
+	rl := b.ld.ResourceLogs().AppendEmpty()
+	rl.Resource().Attributes().PutStr("service.name", "fat")
+	ls := rl.ScopeLogs().AppendEmpty().LogRecords()
+	ls.EnsureCapacity(n)
+	pad := make([]byte, size)
+	for i := range pad {
+		pad[i] = byte('a' + i%26)
+	}
+	for i := 0; i < n; i++ {
+		lr := ls.AppendEmpty()
+		lr.SetTimestamp(1)
+		lr.Body().SetStr(fmt.Sprintf("free text %06d-%06d %s", seq, i, pad))
+	}
+	return b
+}
